@@ -35,6 +35,8 @@ os.environ.setdefault('PYTHONDONTWRITEBYTECODE', '1')
 sys.dont_write_bytecode = True
 import logging  # noqa: E402
 logging.disable(logging.CRITICAL)   # cardutil logs warnings on truncated input; not an observation
+import warnings  # noqa: E402
+warnings.simplefilter('ignore')
 
 # ---------------------------------------------------------------------------------------------
 # shared encodings with the driver
